@@ -193,7 +193,6 @@ class PropertyValue(css_parser.util._NewBase):
             # report first: a raised error must leave this value as it was
             self._log.error('PropertyValue: Unknown syntax or no value: %s' %
                             self._valuestr(cssText))
-            self.wellformed = ok
 
     cssText = property(lambda self: css_parser.ser.do_css_PropertyValue(self),
                        _setCssText,
@@ -273,8 +272,8 @@ class Value(css_parser.util._NewBase):
                        PreDef.unicode_range(stop=True),
                        )
         ok, seq, store, unused = ProdParser().parse(cssText, 'Value', prods)
-        self.wellformed = ok
         if ok:
+            self.wellformed = ok
             # only 1 value anyway!
             self._type = seq[0].type
             self._value = seq[0].value
@@ -378,9 +377,7 @@ class ColorValue(Value):
         ok, seq, store, unused = ProdParser().parse(cssText,
                                                     self.type,
                                                     prods)
-        if not ok:
-            self.wellformed = ok
-        else:
+        if ok:
             t, v = seq[0].type, seq[0].value
             if 'IDENT' == t:
                 rgba = self.COLORS[normalize(v)]
@@ -432,7 +429,6 @@ class ColorValue(Value):
                         self._log.error('ColorValue has too few %s) parameters: '
                                         '%s (N=Number, P=Percentage)' %
                                         (functiontype, check))
-                        self.wellformed = False
                         return
 
                     if HSL:
@@ -457,7 +453,6 @@ class ColorValue(Value):
                     # int -> float or round(inf), round(nan) failed
                     self._log.error('ColorValue: Parameter out of range: %s'
                                     % self._valuestr(cssText))
-                    self.wellformed = False
                     return
 
                 if len(rgba) < 4:
@@ -540,9 +535,7 @@ class DimensionValue(Value):
         ok, seq, store, unused = ProdParser().parse(cssText,
                                                     'DimensionValue',
                                                     prods)
-        if not ok:
-            self.wellformed = ok
-        else:
+        if ok:
             item = seq[0]
 
             sign, v, d = self.__reUnNumDim.findall(
@@ -558,7 +551,6 @@ class DimensionValue(Value):
             if val is None or val in (float('inf'), float('-inf')):
                 self._log.error('DimensionValue: Number out of range: %s' %
                                 self._valuestr(cssText))
-                self.wellformed = False
                 return
 
             dim = None
@@ -602,8 +594,8 @@ class URIValue(Value):
         prods = Sequence(PreDef.uri(stop=True))
 
         ok, seq, store, unused = ProdParser().parse(cssText, 'URIValue', prods)
-        self.wellformed = ok
         if ok:
+            self.wellformed = ok
             # only 1 value only anyway
             self._type = seq[0].type
             self._value = seq[0].value
@@ -677,8 +669,8 @@ class CSSFunction(Value):
         ok, seq, store, unused = ProdParser().parse(cssText,
                                                     self.type,
                                                     self._productions())
-        self.wellformed = ok
         if ok:
+            self.wellformed = ok
             self._setSeq(seq)
 
     cssText = property(lambda self: css_parser.ser.do_css_CSSFunction(self),
@@ -814,8 +806,8 @@ class CSSCalc(CSSFunction):
                                                     'CSSCalc',
                                                     prods,
                                                     checkS=True)
-        self.wellformed = ok
         if ok:
+            self.wellformed = ok
             self._setSeq(seq)
 
     cssText = property(lambda self: css_parser.ser.do_css_CSSCalc(self),
@@ -871,9 +863,8 @@ class CSSVariable(CSSFunction):
             ok = False
             self._log.error('CSSVariable: No variable name found: %s' %
                             self._valuestr(cssText))
-        self.wellformed = ok
-
         if ok:
+            self.wellformed = ok
             self._name = store['ident'].value
             try:
                 self._fallback = store['fallback'].value
